@@ -21,11 +21,14 @@ import (
 	"go.uber.org/zap/zapcore"
 	"pgregory.net/rapid"
 
+	"github.com/milvus-io/milvus-proto/go-api/v2/commonpb"
+
 	"github.com/zilliztech/milvus-cdc/core/log"
 
 	"github.com/zilliztech/milvus-cdc/server/metrics"
 	"github.com/zilliztech/milvus-cdc/server/model/meta"
 
+	"verifharness/fakes/milvus"
 	"verifharness/quiesce"
 	"verifharness/stats"
 )
@@ -104,6 +107,8 @@ func c11Body(t *rapid.T) {
 	deleted := []*c11task{}
 	var hist []string
 	ntask, nFail, nRestart, nPauseResume := 0, 0, 0, 0
+	nInternal := 0
+	nPauseDuringFailure := 0
 	abandoned := false
 
 	byLabel := func() []string {
@@ -206,6 +211,13 @@ func c11Body(t *rapid.T) {
 			// open MQ consumers is not the criterion: the pinned msgdispatcher keeps the consumer of a main dispatcher whose last
 			// target was removed while a solo dispatcher existed - a leak inside the library although everything was deregistered.)
 			if !waitFor(3*time.Second, func() bool { return len(regs.openStreams()) == 0 }) {
+				// not a wall-clock verdict: a reader that is still inside the retries of a failing pack deregisters when it comes
+				// back; the streams count as left open only once the service is at rest
+				if _, quiet := quiesce.WaitStable(func() int { return w.targets[0].NumCalls() + w.targets[1].NumCalls() }, 25*time.Second); !quiet {
+					st.Count("inconclusive_quiescence", 1)
+				}
+			}
+			if !waitFor(2*time.Second, func() bool { return len(regs.openStreams()) == 0 }) {
 				t.Fatalf("VERIF-VIOLATION C11 after %s: no task is running but these source streams are still registered (never deregistered): %v\nhistory: %v", where, regs.openStreams(), hist)
 			}
 			if w.inc.mqf.Active.Load() != 0 {
@@ -421,6 +433,93 @@ func c11Body(t *rapid.T) {
 			check("delete")
 			produceAndSettle("delete")
 		},
+		"replicationFailure": func(t *rapid.T) {
+			// the internal transition Running -> Paused: the replication of a running task fails (the downstream rejects its
+			// writes, or its rows go to a partition nobody knows). The task must end Paused in all four views like after a pause
+			// request - also when the failure is reported more than once.
+			if abandoned {
+				return
+			}
+			var running []string
+			for _, l := range byLabel() {
+				if get(l).state == "Running" {
+					running = append(running, l)
+				}
+			}
+			if len(running) == 0 || nInternal >= 2 {
+				t.Skip("no running task")
+			}
+			ta := get(rapid.SampledFrom(running).Draw(t, "task"))
+			class := rapid.SampledFrom([]string{"write_rejected", "unknown_partition"}).Draw(t, "class")
+			tgt := w.targets[ta.target]
+			var rows []int64
+			unknownPart := ""
+			if class == "write_rejected" {
+				name := ta.coll.name
+				tgt.Before = func(cc *milvus.CallCtx) error {
+					if cc.Method == "ReplicateMessage" && cc.Pack != nil {
+						for _, m := range cc.Pack.Msgs {
+							if m.Type == commonpb.MsgType_Insert && m.Collection == name {
+								return fmt.Errorf("injected: downstream rejects the write")
+							}
+						}
+					}
+					return nil
+				}
+				rows = append(rows, p.insert(ta.coll, 0, 1, 5)...)
+				p.tick(ta.coll.pch[0], 5)
+				rows = append(rows, p.insert(ta.coll, 0, 1, 5)...)
+			} else {
+				unknownPart = fmt.Sprintf("p_unknown%d", nInternal)
+				rows = append(rows, p.insertPart(ta.coll, 0, 1, 5, unknownPart, ta.coll.id+77+int64(nInternal))...)
+				p.tick(ta.coll.pch[0], 5)
+				rows = append(rows, p.insertPart(ta.coll, 0, 1, 5, unknownPart, ta.coll.id+77+int64(nInternal))...)
+			}
+			// a pause request may overtake the report of the failure: the reader spends seconds in its retries before it reports the
+			// unknown partition, so the failure arrives at a task which is already Paused (a second Running->Paused attempt)
+			userPause := class == "unknown_partition" && rapid.Bool().Draw(t, "pauseWhileFailing")
+			if userPause {
+				time.Sleep(300 * time.Millisecond) // schedule aid only: lets the reader pick the rows up
+				if r := w.inc.post(t, "pause", map[string]any{"task_id": ta.id}); r.Code != 200 {
+					t.Fatalf("VERIF-VIOLATION C11: legal pause of task %s (Running) failed without any fault: %s\nhistory: %v", ta.label, r.Raw, hist)
+				}
+				hist = append(hist, fmt.Sprintf("pause(%s,while its rows fail)", ta.label))
+				nPauseDuringFailure++
+			}
+			// rows of an unknown partition fail every running task which replicates this source collection (to any target)
+			victims := []*c11task{ta}
+			if class == "unknown_partition" {
+				for _, l := range running {
+					if o := get(l); o != ta && o.coll == ta.coll {
+						victims = append(victims, o)
+					}
+				}
+			}
+			paused := waitTicking(p, []string{ta.coll.pch[0]}, 15*time.Second, func() bool {
+				for _, v := range victims {
+					if s, _ := taskView(w, t, v.id); s != "Paused" {
+						return false
+					}
+				}
+				return true
+			})
+			// let late reports of the same failure arrive before the fault is cleared
+			quiesce.WaitStable(func() int { return w.targets[0].NumCalls() + w.targets[1].NumCalls() }, 4*time.Second)
+			tgt.Before = nil
+			hist = append(hist, fmt.Sprintf("replicationFailure(%s,%s)->paused=%v", ta.label, class, paused))
+			if !paused {
+				t.Fatalf("VERIF-VIOLATION C11: the replication of task %s failed (%s) but the task did not end Paused\nhistory: %v", ta.label, class, hist)
+			}
+			for _, v := range victims {
+				if class == "unknown_partition" {
+					w.targets[v.target].AddPartition("default", v.coll.name, unknownPart) // the rows can be written once the task is resumed
+				}
+				v.state, v.lastRow = "Paused", rows[len(rows)-1]
+			}
+			nInternal++
+			check("replicationFailure")
+			produceAndSettle("replicationFailure")
+		},
 		"unknown": func(t *rapid.T) {
 			if abandoned {
 				return
@@ -502,6 +601,8 @@ func c11Body(t *rapid.T) {
 	st.ClassIf(abandoned, "abandoned_after_simulated_restart")
 	st.ClassIf(nPauseResume > 0, "pause_resume")
 	st.ClassIf(nFail > 0, "store_failure_fired")
+	st.ClassIf(nInternal > 0, "internal_pause_by_replication_failure")
+	st.ClassIf(nPauseDuringFailure > 0, "pause_request_overtakes_failure_report")
 	st.ClassIf(nRestart > 0, "restart")
 	st.ClassIf(len(deleted) > 0, "delete")
 	st.Count("steps", len(hist))
